@@ -124,8 +124,12 @@ def nontrivial_value(c):
 def plan_c01(K, ctx):
     cfg = ("SPECIFICATION Spec\n" + consts(TIER=f'"{ctx.tier}"', SEEDS=16, SEED=ctx.seed) +
            "INVARIANT RoundTrip\nINVARIANT Emit\nCHECK_DEADLOCK FALSE\n")
+    ncfg = ("SPECIFICATION Spec\n" + consts(TIER=f'"{ctx.tier}"', SEEDS=16, SEED=ctx.seed) + "INVARIANT Emit\nCHECK_DEADLOCK FALSE\n")
     K.parallel([(lambda f=f: K.pipeline(ctx, f, "c01", "MC_C01", cfg, "J_C01", nontrivial_value, workers=5,
                                         shards=5 if ctx.tier == "thorough" else 2)) for f in K.FORMATS])
+    # adversarial names derived from the vocabulary (known finding F7 lives here)
+    K.parallel([(lambda f=f: K.pipeline(ctx, f, "c01names", "MC_Names", ncfg, "J_C01", nontrivial_value, workers=5,
+                                        shards=6 if ctx.tier == "thorough" else 3)) for f in K.FORMATS])
     ctx.exhaustive = ctx.tier == "thorough"
     return {
         "note": "EnumFormat.tla + EnumParser.tla (M1) on the dumped vocabulary: model round trip checked by TLC for every value of U1 (all 30 "
@@ -419,6 +423,8 @@ def plan_c03(K, ctx):
     cfg1 = ("SPECIFICATION Spec\n" + consts(TIER=f'"{ctx.tier}"', SEEDS=16, SEED=ctx.seed) + "INVARIANT RoundTrip\nINVARIANT Emit\nCHECK_DEADLOCK FALSE\n")
     cfg2 = ("SPECIFICATION Spec\n" + consts(TIER=f'"{ctx.tier}"', SEEDS=16, SEED=ctx.seed) + "INVARIANT Meaning\nINVARIANT Emit\nCHECK_DEADLOCK FALSE\n")
 
+    ncfg = ("SPECIFICATION Spec\n" + consts(TIER=f'"{ctx.tier}"', SEEDS=16, SEED=ctx.seed) + "INVARIANT Emit\nCHECK_DEADLOCK FALSE\n")
+
     def to_pipe_v(c):
         c["op"] = "pipe_v"
         return c
@@ -430,6 +436,7 @@ def plan_c03(K, ctx):
             open(cmds, "w").close()
             K.run_mc(ctx, "MC_C01", cfg1, fmt, f"c03_{fmt}_values_mc", cmds, workers=5, transform=to_pipe_v)
             K.run_mc(ctx, "MC_C10", cfg2, fmt, f"c03_{fmt}_sugar_mc", cmds, workers=5)
+            K.run_mc(ctx, "MC_Names", ncfg, fmt, f"c03_{fmt}_names_mc", cmds, workers=5, transform=to_pipe_v)
             lines = sorted(set(x for x in open(cmds, encoding="utf-8").read().split("\n") if x))
             open(cmds, "w", encoding="utf-8").write("".join(l + "\n" for l in lines))
             K.account(ctx, cmds, lambda c: c["op"] == "pipe" or nontrivial_value(c))
